@@ -288,6 +288,10 @@ class Run8:
             for n, x in list(zip(nonempty, new))[:max(0, extra)]:
                 rolls.append("%s=1" % n)
             self.counts["reopen"] += 1
+        # the first log's number is bounded below by the tree's highest timestamp and (fix 58d2330) by
+        # the number after the last flushed log ('L'); the model takes that bound as an input
+        if view["mlog"] != "-":
+            tree_max = max(tree_max, int(view["mlog"]) + 1)
         obs = self.model.cmd("open %s | %s | %d" % (",".join(sums), ",".join(rolls), tree_max))
         self.dirty = False
         self.held = {}
@@ -566,11 +570,13 @@ class Run8:
         the snapshot still references when the reader is inside dec_and's callback for X (count
         gone, rename to trash not yet done).  The table lock held across the callback makes the pin
         wait; the fine-grained model (Refs/ModelLock.v) blocks it the same way, so the outcome is
-        that of: the whole release, then the pin.  Returns False when nothing was selected."""
+        that of: the whole release, then the pin.  When the compaction pins no such output it just
+        runs and the snapshot stays.  Returns False when nothing was selected, None once raced."""
         if self.dead:
             return False
         if self.held.get(r) != "snap":
-            return self.compact()
+            self.compact()
+            return False
         a = self.icmd("select")[0].split(" ")
         if a[0] == "PANIC":
             self.events.append(("select", "PANIC"))
@@ -592,16 +598,17 @@ class Run8:
             self.problem("error", what="a compaction racing with a reader's release did not complete", out=out)
             self.dead = True
             return False
-        self.held.pop(r, None)
         self.counts["racedrop"] = self.counts.get("racedrop", 0) + 1
         self.counts["racedrop_candidates"] = self.counts.get("racedrop_candidates", 0) + (kv.get("candidates", "0") != "0")
         held, window = kv.get("held", "-"), kv.get("window", "none")
         self.counts["racedrop_window_" + window] = self.counts.get("racedrop_window_" + window, 0) + 1
         view = self.impl_view()
+        if held != "-":
+            self.held.pop(r, None)
         if len(ins) == 1:
-            self.model.cmd("move")
+            # a trivial move pins nothing: the snapshot is still held
+            obs = self.model.cmd("move")
             self.counts["move"] += 1
-            obs = self.model.cmd("drop %d" % r)
         else:
             e, rolled = self.recent_edits(self.all_edits(), 1)[-1]
             if sorted(e["rm"]) != sorted(ins):
@@ -614,9 +621,9 @@ class Run8:
             self.counts["gc" if is_gc else "merge"] += 1
             args = "%s | %s | %d %d" % (",".join(ins), ",".join(e["add"]), rolled, 0 if is_gc else 1)
             if held == "-":
-                # the compaction never waited: it was over before the reader let go
-                self.model.cmd("compact " + args)
-                obs = self.model.cmd("drop %d" % r)
+                # the compaction never waited (none of its outputs is held by the snapshot alone):
+                # the snapshot is still held
+                obs = self.model.cmd("compact " + args)
             else:
                 # the compaction stopped before pinning `held`; the reader's whole release comes
                 # first (its callback for `held` is where the compaction was let go, and the table
@@ -642,7 +649,7 @@ class Run8:
         if window == "entered":
             self.problem("corr", what="a compaction pinned and linked sst %s while a reader was inside the release callback of the same sst (count already gone, rename pending): the table of counts is not locked across dec_and's callback" % held[:16], name=held, out=out)
         self.last_view = self.compare("compaction racing with a reader's release", obs, view)
-        return True
+        return None if held != "-" else True
 
     def take(self, r, kind):
         if self.dead or r in self.held:
